@@ -52,6 +52,13 @@ def run(c):
     for m, (base, singles) in singles_by_message(gen).items():      # repeated element, later copy of a different length
         for v in dup_variants(base, singles):
             cases.append(dict(k="dec", entry="plain", inp=v))
+    for m, (base, singles) in singles_by_message(gen).items():      # every optional element present, then one more / one cut short
+        for v in full_plus_inputs(base, singles, unknown_octet(m)):
+            cases.append(dict(k="dec", entry="plain", inp=v))
+    for t in TABLES:                                                  # out-of-bounds declared lengths with the content present
+        if t["family"] == "ENV": continue
+        for v in oob_full_inputs(t["name"]):
+            cases.append(dict(k="dec", entry="plain", inp=v))
     for name, b in samples(4000 if not thorough else 70000):
         cases.append(dict(k="dec", entry="plain", inp=b))
         pts = range(len(b)) if len(b) <= 200 else sorted(set(list(range(64)) + [rng.randrange(len(b)) for _ in range(60)]))
